@@ -11,6 +11,7 @@ import NemoVerif.Lemmas.Pipeline
 import NemoVerif.Lemmas.PipelineV2
 import NemoVerif.Lemmas.PipelineTie
 import NemoVerif.Lemmas.PipelineCtx
+import NemoVerif.Lemmas.PipelineCall
 
 namespace NemoVerif.C02
 open NemoVerif NemoVerif.Pipeline
@@ -372,5 +373,178 @@ theorem v2_rail_without_abort_counterexample :
   ⟨{ inRails := [], outRails := [100], dialog := false, exc := true, stops := fun _ _ => false, flagReset := true },
    { user := "u", bot := "bad", intent := .free, actFault := false, retrFault := false, vin := fun _ _ => .accept, vout := fun _ _ => .reject },
    rfl, rfl, rfl, by decide⟩
+
+section Calls
+open NemoVerif.PipelineCall
+
+/-! ### Colang 2.x: calls that end by a propagated exception (`Models/PipelineCall.lean`) -/
+
+/-- `failed_turn_leaves_no_trace` (2.x, the code as it is: every call decodes the state it is handed into a NEW
+    object): a call that ends by a propagated exception — the LLM call of a rail or of the generation failed
+    (`LLMCallException`), the request was cancelled, at ANY await point — hands nothing back, returns no text,
+    leaves the LLMRails instance as it was, and the conversation that goes on from the state the caller was given
+    before is exactly the conversation in which the failed call never happened. -/
+theorem failed_turn_leaves_no_trace_v2 (cfg : Cfg) (slot : Slot) (given : HistV2) (t : Turn) (f : Fault)
+    (hr : (callV2 false cfg slot given t f).reply.raised = true) (cs : List (Turn × Fault)) :
+    (callV2 false cfg slot given t f).saved = none
+    ∧ (callV2 false cfg slot given t f).reply.texts = []
+    ∧ (callV2 false cfg slot given t f).slot = slot
+    ∧ convCallsV2 false cfg slot given ((t, f) :: cs)
+        = callV2 false cfg slot given t f :: convCallsV2 false cfg slot given cs := by
+  have hs := (callV2_saved_none_iff false cfg slot given t f).mpr hr
+  refine ⟨hs, callV2_raised_texts false cfg slot given t f hr, callV2_false_slot cfg slot given t f, ?_⟩
+  simp [convCallsV2, hs, callV2_false_slot]
+
+/-- … so the next turn from the caller's saved state is fully checked: whatever it utters is the refusal or
+    the LLM text of THAT turn after all configured output rails ran on it, in order, and none blocked. -/
+theorem next_turn_fully_checked_after_failure_v2 (cfg : Cfg) (slot : Slot) (given : HistV2) (t t' : Turn) (f f' : Fault)
+    (hi : WF cfg .input) (ho : WF cfg .output) (hor : given.orip = false)
+    (_hr : (callV2 false cfg slot given t f).reply.raised = true)
+    (hc : (callV2 false cfg (callV2 false cfg slot given t f).slot given t' f').reply.raised = false)
+    (x : Text) (hx : Step.utter x ∈ (callV2 false cfg (callV2 false cfg slot given t f).slot given t' f').steps) :
+    x = refusal ∨
+      (x = t'.bot
+        ∧ railCalls .output (callV2 false cfg (callV2 false cfg slot given t f).slot given t' f').steps = gate (n2 t'.vout) cfg.outRails t'.bot
+        ∧ (gate (n2 t'.vout) cfg.outRails t'.bot).map Prod.fst = cfg.outRails
+        ∧ (∀ c ∈ gate (n2 t'.vout) cfg.outRails t'.bot, (n2 t'.vout c.1 c.2).continues = true)) := by
+  obtain ⟨hst, _, _⟩ := callV2_false_completed cfg _ given t' f' hc
+  rw [hst] at hx ⊢
+  exact output_all_rails_v2 cfg given t' hi ho hor x hx
+
+/-- `every_call_checked` (2.x): in EVERY conversation through the state API on one LLMRails instance — any number
+    of calls, any of them ending by a propagated exception at any await point, the caller going on from the last
+    state it was given — a call that raised returns no text, and whatever a completed call utters is the refusal
+    or the LLM text of that call after all configured output rails ran on it, in order. -/
+theorem every_call_checked_v2 (cfg : Cfg) (hfr : cfg.flagReset = true) (hi : WF cfg .input) (ho : WF cfg .output) :
+    ∀ (cs : List (Turn × Fault)) (slot : Slot) (given : HistV2), given.orip = false →
+      ∀ p ∈ List.zip cs (convCallsV2 false cfg slot given cs),
+        (p.2.reply.raised = true → p.2.reply.texts = [] ∧ p.2.saved = none)
+        ∧ (p.2.reply.raised = false → ∀ x, Step.utter x ∈ p.2.steps →
+            x = refusal ∨ (x = p.1.1.bot ∧ railCalls .output p.2.steps = gate (n2 p.1.1.vout) cfg.outRails p.1.1.bot
+              ∧ (gate (n2 p.1.1.vout) cfg.outRails p.1.1.bot).map Prod.fst = cfg.outRails))
+  | [], _, _, _ => by simp [convCallsV2]
+  | (t, f) :: cs, slot, given, hor => by
+    intro p hp
+    simp only [convCallsV2, List.zip_cons_cons, List.mem_cons] at hp
+    rcases hp with rfl | hp
+    · refine ⟨fun hr => ⟨callV2_raised_texts false cfg slot given t f hr, (callV2_saved_none_iff false cfg slot given t f).mpr hr⟩, ?_⟩
+      intro hc x hx
+      obtain ⟨hst, _, _⟩ := callV2_false_completed cfg slot given t f hc
+      simp only at hx ⊢
+      rw [hst] at hx ⊢
+      rcases output_all_rails_v2 cfg given t hi ho hor x hx with h1 | ⟨a, b, c, _⟩
+      · exact Or.inl h1
+      · exact Or.inr ⟨a, b, c⟩
+    · exact every_call_checked_v2 cfg hfr hi ho cs _ _ (callV2_false_next_orip cfg hfr slot given hor t f) p hp
+
+/-- non-vacuity: a three-call conversation — completed, failed inside the output rails (the rail's LLM call
+    raises), completed — on a well-formed configuration; the third call, made from the state of the first, utters
+    the refusal because its output rail rejects "bad". -/
+example :
+    let cfg : Cfg := { inRails := [], outRails := [0], dialog := false, exc := false, stops := fun _ _ => true, flagReset := true }
+    let t1 : Turn := { user := "u1", bot := "b1", intent := .free, actFault := false, retrFault := false, vin := fun _ _ => .accept, vout := fun _ _ => .accept }
+    let t2 : Turn := { user := "u2", bot := "b2", intent := .free, actFault := false, retrFault := false, vin := fun _ _ => .accept, vout := fun _ _ => .escape }
+    let t3 : Turn := { user := "u3", bot := "bad", intent := .free, actFault := false, retrFault := false, vin := fun _ _ => .accept, vout := fun _ _ => .reject }
+    cfg.flagReset = true ∧ WF cfg .input ∧ WF cfg .output ∧
+    (convCallsV2 false cfg none initV2 [(t1, {}), (t2, {}), (t3, {})]).map (fun o => (o.reply.raised, o.reply.texts))
+      = [(false, ["b1"]), (true, []), (false, [refusal])] :=
+  ⟨rfl, fun _ _ => rfl, fun _ _ => rfl, by decide⟩
+
+/-- The "do not decode the state again" variant (`remember = true`: the instance remembers the live object behind
+    the last serialized state it returned and continues from it when handed exactly that state) does NOT have the
+    property, with the repaired guardrails.co and well-formed rails: the SAME three calls — the second fails inside
+    the output rails, which leaves the remembered object with `$output_rails_in_progress = True` — and the third
+    call, made from the state returned by the first, utters and returns the LLM text "bad" although its output rail,
+    which rejects it, is never invoked.  (Kernel-evaluated; seeded change `C02-e-v2-last-state-object-reused`.) -/
+theorem remembered_state_object_counterexample :
+    ∃ (cfg : Cfg) (t1 t2 t3 : Turn), cfg.flagReset = true ∧ WF cfg .input ∧ WF cfg .output ∧
+      (∀ x, t3.vout 0 x = .reject) ∧
+      let outs := convCallsV2 true cfg none initV2 [(t1, {}), (t2, {}), (t3, {})]
+      outs.map (fun o => (o.reply.raised, o.reply.texts)) = [(false, ["b1"]), (true, []), (false, ["bad"])]
+      ∧ (outs.map (fun o => railCalls .output o.steps)).getLast? = some []
+      ∧ (outs.map (fun o => o.obj.orip)) = [false, true, true] :=
+  ⟨{ inRails := [], outRails := [0], dialog := false, exc := false, stops := fun _ _ => true, flagReset := true },
+   { user := "u1", bot := "b1", intent := .free, actFault := false, retrFault := false, vin := fun _ _ => .accept, vout := fun _ _ => .accept },
+   { user := "u2", bot := "b2", intent := .free, actFault := false, retrFault := false, vin := fun _ _ => .accept, vout := fun _ _ => .escape },
+   { user := "u3", bot := "bad", intent := .free, actFault := false, retrFault := false, vin := fun _ _ => .accept, vout := fun _ _ => .reject },
+   rfl, fun _ _ => rfl, fun _ _ => rfl, fun _ => rfl, by decide, by decide, by decide⟩
+
+/-! #### the caller keeps a live State object (open finding `v2-live-state-object-after-propagated-failure`) -/
+
+/-- The code as it is does NOT have the property when the caller keeps a LIVE State object (the object is handed to
+    every call — `generate_async(state=<State>)`, `process_events(events, state)`): the call mutates the caller's
+    object; a call that fails inside the output rails (the rail's LLM call raises `LLMCallException`) leaves it with
+    `$output_rails_in_progress = True`, and the next call on it utters and returns the LLM text "bad" although its
+    output rail, which rejects it, is never invoked — with the repaired guardrails.co (`flagReset`) and well-formed
+    rails.  (Kernel-evaluated; `harness/corpus/C02/live_object_after_propagated_failure.json` is the same
+    conversation on the real code; open finding `v2-live-state-object-after-propagated-failure`.) -/
+theorem live_object_as_is_counterexample :
+    ∃ (cfg : Cfg) (t1 t2 t3 : Turn), cfg.flagReset = true ∧ WF cfg .input ∧ WF cfg .output ∧
+      (∀ x, t3.vout 0 x = .reject) ∧
+      let outs := convLiveV2 false cfg initV2 [(t1, {}), (t2, {}), (t3, {})]
+      outs.map (fun o => (o.2.1.raised, o.2.1.texts)) = [(false, ["b1"]), (true, []), (false, ["bad"])]
+      ∧ (outs.map (fun o => railCalls .output o.1)).getLast? = some []
+      ∧ (outs.map (fun o => o.2.2.orip)) = [false, true, true] :=
+  ⟨{ inRails := [], outRails := [0], dialog := false, exc := false, stops := fun _ _ => true, flagReset := true },
+   { user := "u1", bot := "b1", intent := .free, actFault := false, retrFault := false, vin := fun _ _ => .accept, vout := fun _ _ => .accept },
+   { user := "u2", bot := "b2", intent := .free, actFault := false, retrFault := false, vin := fun _ _ => .accept, vout := fun _ _ => .escape },
+   { user := "u3", bot := "bad", intent := .free, actFault := false, retrFault := false, vin := fun _ _ => .accept, vout := fun _ _ => .reject },
+   rfl, fun _ _ => rfl, fun _ _ => rfl, fun _ => rfl, by decide, by decide, by decide⟩
+
+/-- `live_object_checked_partial`: with a live object the property holds for the calls made while no call has
+    failed inside the output rails, i.e. as long as the object the caller holds has `$output_rails_in_progress`
+    unset (full statement — "for every call of every conversation" — is false of the code: see the counterexample). -/
+theorem live_object_checked_partial (cfg : Cfg) (obj : HistV2) (t : Turn) (f : Fault) (hi : WF cfg .input) (ho : WF cfg .output)
+    (hor : obj.orip = false) (hc : (runObjV2 cfg obj t f).2.1.raised = false)
+    (x : Text) (hx : Step.utter x ∈ (runObjV2 cfg obj t f).1) :
+    x = refusal ∨ (x = t.bot ∧ railCalls .output (runObjV2 cfg obj t f).1 = gate (n2 t.vout) cfg.outRails t.bot
+      ∧ (gate (n2 t.vout) cfg.outRails t.bot).map Prod.fst = cfg.outRails) := by
+  have hrun : (runObjV2 cfg obj t f).1 = (turnV2 cfg obj t).1 := by
+    unfold runObjV2 at hc ⊢
+    cases hcut : f.cut (turnV2 cfg obj t).1 with
+    | some pre => simp [hcut, raisedReply] at hc
+    | none =>
+      simp only [hcut] at hc ⊢
+      by_cases hr : (turnV2 cfg obj t).2.1.raised = true
+      · simp [hr] at hc
+      · simp [hr]
+  rw [hrun] at hx ⊢
+  rcases output_all_rails_v2 cfg obj t hi ho hor x hx with h1 | ⟨a, b, c, _⟩
+  · exact Or.inl h1
+  · exact Or.inr ⟨a, b, c⟩
+
+example : (⟨false, false⟩ : HistV2).orip = false := rfl
+
+/-- `live_object_every_call_checked` (2.x, REPAIRED guardrails.co: a new user message resets
+    `$output_rails_in_progress`, `fixes/C02-v2-output-rails-flag-new-user-message.diff`): also when the caller keeps one
+    live State object, in every conversation — any calls failing at any await point, whatever the object looked like
+    before — whatever a completed call utters is the refusal or the LLM text of that call after all configured output
+    rails ran on it, in order. -/
+theorem live_object_every_call_checked_v2 (cfg : Cfg) (hi : WF cfg .input) (ho : WF cfg .output) :
+    ∀ (cs : List (Turn × Fault)) (obj : HistV2),
+      ∀ p ∈ List.zip cs (convLiveV2 true cfg obj cs), p.2.2.1.raised = false → ∀ x, Step.utter x ∈ p.2.1 →
+        x = refusal ∨ (x = p.1.1.bot ∧ railCalls .output p.2.1 = gate (n2 p.1.1.vout) cfg.outRails p.1.1.bot
+          ∧ (gate (n2 p.1.1.vout) cfg.outRails p.1.1.bot).map Prod.fst = cfg.outRails)
+  | [], _ => by simp [convLiveV2]
+  | (t, f) :: cs, obj => by
+    intro p hp
+    simp only [convLiveV2, List.zip_cons_cons, List.mem_cons] at hp
+    rcases hp with rfl | hp
+    · intro hc x hx
+      exact live_object_checked_partial cfg (entryV2 true obj) t f hi ho (by simp [entryV2]) hc x hx
+    · exact live_object_every_call_checked_v2 cfg hi ho cs _ p hp
+
+/-- non-vacuity + the repaired behaviour on the counterexample's conversation: the third call utters the refusal -/
+example :
+    let cfg : Cfg := { inRails := [], outRails := [0], dialog := false, exc := false, stops := fun _ _ => true, flagReset := true }
+    let t1 : Turn := { user := "u1", bot := "b1", intent := .free, actFault := false, retrFault := false, vin := fun _ _ => .accept, vout := fun _ _ => .accept }
+    let t2 : Turn := { user := "u2", bot := "b2", intent := .free, actFault := false, retrFault := false, vin := fun _ _ => .accept, vout := fun _ _ => .escape }
+    let t3 : Turn := { user := "u3", bot := "bad", intent := .free, actFault := false, retrFault := false, vin := fun _ _ => .accept, vout := fun _ _ => .reject }
+    WF cfg .input ∧ WF cfg .output ∧
+    (convLiveV2 true cfg initV2 [(t1, {}), (t2, {}), (t3, {})]).map (fun o => (o.2.1.raised, o.2.1.texts))
+      = [(false, ["b1"]), (true, []), (false, [refusal])] :=
+  ⟨fun _ _ => rfl, fun _ _ => rfl, by decide⟩
+
+end Calls
 
 end NemoVerif.C02
